@@ -61,11 +61,83 @@ def fold(t, env):
         if op == "^":
             return a ^ b
         raise Unfoldable(op)
+    if k == "call" and t[1] == ("free", "abs") and len(t[2]) == 1:
+        return abs(fold(t[2][0], env))
+    if k == "atom" and t[1] in env:
+        return env[t[1]]
     if k == "call" and t[1] == ("free", "len") and len(t[2]) == 1:
         key = "len(%s)" % N.show(t[2][0])
         if key in env:
             return env[key]
     raise Unfoldable(N.show(t)[:60])
+
+
+def fold_cond(c, env):
+    """Truth of a guard over foldable integer terms."""
+    k = c[0]
+    if k == "cmp":
+        a, b = fold(c[2], env), fold(c[3], env)
+        return {"==": a == b, "!=": a != b, "<": a < b, "<=": a <= b, ">": a > b, ">=": a >= b}[c[1]]
+    if k == "not":
+        return not fold_cond(c[1], env)
+    if k == "bool":
+        vals = [fold_cond(x, env) for x in c[2]]
+        return all(vals) if c[1] == "and" else any(vals)
+    if k == "call" and c[1] == ("free", "isinstance"):
+        return True
+    return bool(fold(c, env))
+
+
+def zigzag(ctx, rule):
+    """ZigZag (protobuf): n >= 0 -> 2n, n < 0 -> 2|n| - 1 on build; x even -> x/2, x odd -> -(x+1)/2 on parse, for integers of any magnitude.
+    The value handed to / taken from VarInt is folded on sample integers on both sides of 0, 2^31, 2^63, 2^64 and 2^70."""
+    M = ctx.model
+    obj = ("param", "obj")
+    samples = [0, 1, 2, 3, 63, 64, 2**31 - 1, 2**31, 2**63 - 1, 2**63, 2**63 + 1, 2**64, 2**64 + 5, 2**70 + 3]
+    ref_enc = lambda n: 2 * n if n >= 0 else 2 * abs(n) - 1
+    ref_dec = lambda x: x // 2 if x % 2 == 0 else -(x // 2) - 1
+    fi = M.method("ZigZag", "_build")
+    paths = paths_of(ctx, fi, "ZigZag")
+    hit = set()
+    ok, why = True, ""
+    try:
+        for p in paths:
+            subs = [e for e in p.events if e.kind == "SUB" and e["m"] == "_build"]
+            if not p.returns or len(subs) != 1:
+                continue
+            for n in samples + [-x for x in samples if x]:
+                env = {"obj": n}
+                if all(fold_cond(g, env) for g in p.guards()):
+                    hit.add(n)
+                    got = fold(subs[0]["obj"], env)
+                    if got != ref_enc(n) and ok:
+                        ok, why = False, " (n=%d is handed to VarInt as %d, reference %d)" % (n, got, ref_enc(n))
+    except (Unfoldable, Raises) as e:
+        ctx.error("%s undecided: ZigZag._build cannot be folded (%s)" % (rule, e))
+        return
+    ctx.ob(rule, fi, ok and len(hit) == 2 * len(samples) - 1, "ZigZag._build hands VarInt 2n for n >= 0 and 2|n|-1 for n < 0, at every magnitude%s" % why, key="zigzag encode")
+    fi = M.method("ZigZag", "_parse")
+    paths = paths_of(ctx, fi, "ZigZag")
+    hit = set()
+    ok, why = True, ""
+    try:
+        for p in paths:
+            subs = [e for e in p.events if e.kind == "SUB" and e["m"] in ("_parse", "_parsereport")]
+            if not p.returns or len(subs) != 1:
+                continue
+            x = subs[0]["res"]
+            m = {x: ("atom", "x")}
+            for v in [ref_enc(n) for n in samples] + [ref_enc(-n) for n in samples if n]:
+                env = {"x": v}
+                if all(fold_cond(N.subst(g, m), env) for g in p.guards()):
+                    hit.add(v)
+                    got = fold(N.subst(p.retval, m), env)
+                    if got != ref_dec(v) and ok:
+                        ok, why = False, " (x=%d is decoded as %d, reference %d)" % (v, got, ref_dec(v))
+    except (Unfoldable, Raises) as e:
+        ctx.error("%s undecided: ZigZag._parse cannot be folded (%s)" % (rule, e))
+        return
+    ctx.ob(rule, fi, ok and len(hit) == 2 * len(samples) - 1, "ZigZag._parse decodes even x as x/2 and odd x as -(x+1)/2, at every magnitude%s" % why, key="zigzag decode")
 
 
 def conj(p):
